@@ -43,19 +43,24 @@ func (w *World) remoteAnchors() *remoteAnchors {
 		for _, in := range w.insOf(a.wStart) {
 			{
 				if c := callOf(in); c != nil && c.StaticCallee() != nil && c.StaticCallee().Signature.Recv() != nil {
-					if n, _ := structOf(c.StaticCallee().Signature.Recv().Type()); sameNamed(n, a.writer) {
+					if n, _ := structOf(c.StaticCallee().Signature.Recv().Type()); sameNamed(n, a.writer) && dialsPeer(w, c.StaticCallee()) {
 						a.wInit = c.StaticCallee()
 					}
 				}
 			}
 		}
 	}
+	if a.wInit == nil && a.wStart != nil && dialsPeer(w, a.wStart) {
+		a.wInit = a.wStart // the dial is written out in Start itself
+	}
 	chk := func(name string, ok bool) {
 		if !ok {
 			a.problems = append(a.problems, name)
 		}
 	}
-	aliasRole(a.wInit, "(*remote.streamWriter).init")
+	if a.wInit != a.wStart {
+		aliasRole(a.wInit, "(*remote.streamWriter).init")
+	}
 	chk("remote.streamWriter", a.writer != nil)
 	chk("remote.streamReader", a.reader != nil)
 	chk("remote.streamRouter", a.router != nil)
@@ -703,7 +708,16 @@ func checkReaderDelivery(w *World, r *Report, a *remoteAnchors, rule string) {
 				if j < 0 {
 					return ""
 				}
-				return p[j+len(".Targets["):i]
+				b := p[j+len(".Targets["):i]
+				// the index may be converted first: Targets[int(msg.TargetIndex)]
+				for strings.HasPrefix(b, "conv<") {
+					k := strings.Index(b, ">(")
+					if k < 0 {
+						break
+					}
+					b = b[k+2:]
+				}
+				return b
 			}
 			if base(tgt, "TargetIndex") == "" || !strings.Contains(pay, base(tgt, "TargetIndex")+".Data") {
 				ok, detail = false, "target and payload belong to different messages"
@@ -1190,7 +1204,11 @@ func checkC17(w *World, r *Report) {
 		sg := w.FGI(a.wStart)
 		IS := w.Nodes(sg, EvInvoke("Inboxer.Start", w.IfaceMethod("actor", "Inboxer", "Start")), true)
 		okS := sg.AfterEntry(IS)
-		for _, ci := range w.callsIn(a.wStart, EvCall("init", a.wInit)) {
+		evInit := EvCall("init", a.wInit)
+		if a.wInit == a.wStart {
+			evInit = evDial()
+		}
+		for _, ci := range w.callsIn(a.wStart, evInit) {
 			if !sg.Before(IS, sg.idx[ci.(ssa.Instruction)]) {
 				okS = false
 			}
@@ -1200,12 +1218,17 @@ func checkC17(w *World, r *Report) {
 				okS = false
 			}
 		}
-		for _, ci := range w.callsIn(a.wStart, EvCall("init", a.wInit)) {
+		for _, ci := range w.callsIn(a.wStart, evInit) {
 			if callKind(ci) != "call" {
 				okS = false
 			}
 		}
-		if !sg.AfterEntry(w.Nodes(sg, EvCall("init", a.wInit), true)) {
+		if a.wInit == a.wStart {
+			// written out: the dial sits in the retry loop (whose zero-iteration path is not excluded statically)
+			if !anyOf(w.Nodes(sg, evInit, true)) {
+				okS = false
+			}
+		} else if !sg.AfterEntry(w.Nodes(sg, evInit, true)) {
 			okS = false
 		}
 		r.Check(okS, "C17.R3", fname(a.wStart)+":inbox-then-dial", "the writer's inbox is started (with the writer as processer) and the connection is dialled synchronously, on every path", w.fnPos(a.wStart), "the writer never consumes its inbox, or it starts consuming before the stream exists (nil stream in Invoke)")
@@ -1856,4 +1879,29 @@ func checkPeerIndexGuards(w *World, r *Report, a *remoteAnchors, rule string) ma
 		r.Unknown(rule, "index-sites", "the reader indexes the lookup tables with message fields", w.fnPos(R), "no index site found")
 	}
 	return reach
+}
+
+
+// evDial: a call that dials the peer (net.Dial / tls.Dial and their variants).
+func evDial() Ev {
+	return Ev{Name: "dial", M: func(in ssa.Instruction) bool {
+		c := callOf(in)
+		if c == nil || c.StaticCallee() == nil {
+			return false
+		}
+		s := c.StaticCallee().String()
+		return strings.HasPrefix(s, "net.Dial") || strings.HasPrefix(s, "crypto/tls.Dial") || strings.HasPrefix(s, "(*net.Dialer).Dial") || strings.HasPrefix(s, "(*crypto/tls.Dialer).Dial")
+	}, Shallow: true}
+}
+
+func dialsPeer(w *World, fn *ssa.Function) bool {
+	ev := evDial()
+	for _, b := range fn.Blocks {
+		for _, in := range b.Instrs {
+			if ev.M(in) {
+				return true
+			}
+		}
+	}
+	return false
 }
